@@ -151,27 +151,36 @@ def o10_5_witness_ok(w, out):
 def o3_3_live_files(mir, tier):
     fn = mir.method('VersionSet', 'get_live_files')
     res = Result('O3.3 VersionSet::get_live_files covers every file of every live version', [fn.path],
-                 'two live versions with one file at each of the levels {0, 3, 6} / {1, 6}; linked-list iteration by contract')
+                 'three live versions (oldest, a pinned middle one, current) with one file at each of the levels {0, 3, 6} / {1, 6} / {0, 2, 5}; the linked list by contract (iter / head / tail / len)')
     t0 = time.time()
     w = World(mir)
     v1 = {0: [w.file('a0', number=10)], 3: [w.file('a3', number=13)], 6: [w.file('a6', number=16)]}
     v2 = {1: [w.file('b1', number=21)], 6: [w.file('b6', number=26)]}
+    v3 = {0: [w.file('c0', number=30)], 2: [w.file('c2', number=32)], 5: [w.file('c5', number=35)]}
     S = builder_summaries(mir)
-    nodes = [mir.mk_struct('Node', element=mk_version(mir, v1)), mir.mk_struct('Node', element=mk_version(mir, v2))]
-    S['$patterns'][r'(?:\w+::)*LinkedList::iter'] = lambda se, env, pc, l: lib.one(env, {'it': [Ref('$n0'), Ref('$n1')]})
+    nodes = [mir.mk_struct('Node', element=mk_version(mir, v)) for v in (v1, v2, v3)]
+    refs = [Ref('$n0'), Ref('$n1'), Ref('$n2')]
+    # the list of live versions by contract (the list itself is executed for real in O11.5): iter() = every node from head to tail,
+    # head() / tail() = the two ends, len() = 3
+    S['$patterns'][r'(?:\w+::)*LinkedList::iter'] = lambda se, env, pc, l: lib.one(env, {'it': list(refs)})
+    S['$patterns'][r'(?:\w+::)*LinkedList::head'] = lambda se, env, pc, l: lib.one(env, Enum('Some', (refs[0],)))
+    S['$patterns'][r'(?:\w+::)*LinkedList::tail'] = lambda se, env, pc, l: lib.one(env, Enum('Some', (refs[-1],)))
+    S['$patterns'][r'(?:\w+::)*LinkedList::len'] = lambda se, env, pc, l: lib.one(env, bv(3, 64))
+    S['$patterns'][r'(?:\w+::)*LinkedList::is_empty'] = lambda se, env, pc, l: lib.one(env, BoolVal(False))
     S['$patterns'][r'<NodeIter<.*> as Iterator>::next'] = lib.it_next
     S['$patterns'][r'<NodeIter<.*> as IntoIterator>::into_iter'] = lib.ident
-    ex = Exec(mir, S, loop_bound=20)
+    ex = Exec(mir, S, loop_bound=60)
     def k(ret, env, pc):
         got = sorted(simplify(x).as_long() for x in lib2.set_values(ex, env, ret) if True)
-        want = [10, 13, 16, 21, 26]
+        want = [10, 13, 16, 21, 26, 30, 32, 35]
         post = BoolVal(got == want)
         label = 'a table file of a live version is missing from the live set'
         ex.record_formula(label, pc, Not(post))
         if got != want:
             res.violations.append({'label': label, 'missing': sorted(set(want) - set(got)), 'extra': sorted(set(got) - set(want)), 'replay': ['live_files']})
+            res.violations.append({'label': label, 'missing': sorted(set(want) - set(got)), 'extra': sorted(set(got) - set(want)), 'replay': ['pinned_middle_version']})
         res.cases['live set'] = got
-    env = {'$state': {}, '$vs': mir.mk_struct('VersionSet', versions={'abstract': True, '__ty': 'LinkedList'}), '$n0': nodes[0], '$n1': nodes[1]}
+    env = {'$state': {}, '$vs': mir.mk_struct('VersionSet', versions={'abstract': True, '__ty': 'LinkedList'}, current_version=Ref('$n2')), '$n0': nodes[0], '$n1': nodes[1], '$n2': nodes[2]}
     ex.top(fn, [Ref('$vs')], env, list(w.pre), k)
     res.absorb(ex)
     res.wall_s = time.time() - t0
@@ -181,5 +190,9 @@ def o3_3_live_files(mir, tier):
 
 def o3_3_confirm(v, out):
     if out.get('_rc') != 0: return (False, 'native run failed: %s' % out.get('_stderr', '')[-300:])
+    if v['replay'][0] == 'pinned_middle_version':
+        bad = out.get('pinned_tables_on_disk') != 'true' or out.get('views_ok') != 'true'
+        return (bad, 'three iterators pin three successive versions, compactions and obsolete-file sweeps follow: pinned tables %s, on disk %s, iterator views %s'
+                % (out.get('pinned_tables'), out.get('tables_on_disk'), out.get('views')))
     want = sorted(int(x) for x in out.get('installed', '').split(',') if x); got = sorted(int(x) for x in out.get('live', '').split(',') if x)
     return (not set(want) <= set(got), 'native get_live_files %s, files of the current version %s' % (got, want))
